@@ -7,6 +7,7 @@ the original returns that the transformed program returns the same value.
 import json
 
 TIER = {'quick': dict(CW=4, W=32), 'thorough': dict(CW=5, W=40)}
+RUN_LIMIT_S = 30   # a transformed program still running after this long on a path where the original returned counts as not returning
 EXP0 = -1          # symbolic reals are c * 2^-1 with a symbolic sign: half-integers
 
 
@@ -214,7 +215,11 @@ def run_joint(task, variants, tier, ctx_for=None):
             if st0 == 'raise':
                 continue          # the original does not return here: nothing to preserve
             try:
-                r1 = rt.eval(g, sa.build(), c1, convert=False)
+                r1 = with_timeout(lambda: rt.eval(g, sa.build(), c1, convert=False), RUN_LIMIT_S)
+            except TransformTimeout:
+                # the original returned on this path; the transformed program is still running after RUN_LIMIT_S
+                e.require(False, info={'variant': lab, 'transformed program did not return within %d s on this path' % RUN_LIMIT_S: True}, tag=lab)
+                continue
             except Exception as ex:  # noqa
                 if allow is not None and allow(ex):
                     e.cover('precondition-refusal', True)
@@ -260,14 +265,16 @@ def replay_joint(case, variants_of):
         except Exception as ex:  # noqa
             continue
         try:
-            r1 = rt.eval(g, concrete_args(shape, inp), ctxs[1], convert=False)
+            r1 = with_timeout(lambda: rt.eval(g, concrete_args(shape, inp), ctxs[1], convert=False), RUN_LIMIT_S)
+        except TransformTimeout:
+            problems.append((lab, 'original returned %s; the transformed program did not return within %d s' % (_show(r0), RUN_LIMIT_S))); continue
         except Exception as ex:  # noqa
             if allow is not None and allow(ex):
                 continue
             problems.append((lab, 'transformed raised %r' % ex)); continue
         if not conc_eq(r0, r1):
             problems.append((lab, 'original %s transformed %s' % (_show(r0), _show(r1))))
-    key = (problems[0][0] if problems else 'ok')
+    key = ('%s:%s' % (t.get('prog'), problems[0][0]) if problems else 'ok')
     return {'violates': bool(problems), 'observed': {'arguments': [_show(a) for a in concrete_args(shape, inp)], 'problems': [list(map(str, p)) for p in problems[:3]]}, 'key': key}
 
 
